@@ -39,9 +39,126 @@ pub fn sem_jobs(thorough: bool, finish: bool) -> Vec<Job> {
     v
 }
 
+pub fn mutex_jobs(thorough: bool, finish: bool) -> Vec<Job> {
+    let mut v = vec![];
+    for fl in ["mutex.local", "mutex.std"] {
+        for fair in [1, 0] {
+            v.push(job(Cfg::new(fl, &[("fair", fair), ("k", if thorough { 4 } else { 3 })]), finish, thorough));
+        }
+    }
+    if thorough {
+        v.push(job(Cfg::new("mutex.local", &[("fair", 1), ("k", 5)]), finish, true));
+        v.push(job(Cfg::new("mutex.local", &[("fair", 0), ("k", 5)]), finish, true));
+        v.push(job(Cfg::new("mutex.local", &[("fair", 0), ("k", 3), ("symmetry", 0)]), finish, true));
+    }
+    v
+}
+
+pub fn event_jobs(thorough: bool) -> Vec<Job> {
+    let mut v = vec![];
+    for fl in ["event.local", "event.std"] {
+        for set in [0, 1] {
+            v.push(job(Cfg::new(fl, &[("set", set), ("k", if thorough { 4 } else { 3 })]), false, thorough));
+        }
+    }
+    if thorough {
+        v.push(job(Cfg::new("event.local", &[("set", 0), ("k", 5)]), false, true));
+        v.push(job(Cfg::new("event.local", &[("set", 0), ("k", 3), ("symmetry", 0)]), false, true));
+    }
+    v
+}
+
+pub fn oneshot_jobs(thorough: bool) -> Vec<Job> {
+    let mut v = vec![];
+    for fl in ["oneshot.local", "oneshot.std", "oneshot.shared", "bcast.local", "bcast.std", "bcast.shared"] {
+        v.push(job(Cfg::new(fl, &[("k", if thorough { 4 } else { 3 }), ("sends", 2), ("handles", 3)]), false, thorough));
+    }
+    v
+}
+
+pub fn state_jobs(thorough: bool) -> Vec<Job> {
+    let mut v = vec![];
+    for fl in ["state.local", "state.std", "state.shared"] {
+        let k = if thorough { 3 } else { 2 };
+        v.push(job(Cfg::new(fl, &[("k", k), ("sends", if thorough { 4 } else { 3 }), ("handles", if thorough { 3 } else { 2 })]), false, thorough));
+    }
+    if !thorough {
+        v.push(job(Cfg::new("state.local", &[("k", 3), ("sends", 2), ("handles", 2)]), false, false));
+    }
+    v
+}
+
+pub fn timer_jobs(thorough: bool) -> Vec<Job> {
+    let mut v = vec![];
+    let k = if thorough { 4 } else { 3 };
+    // deadlines clock0+{1,2,3}; delays {0 ms, 1 ms, Duration::MAX}
+    v.push(job(Cfg::new("timer.local", &[("k", k), ("clock0", 0), ("deadlines", 0b1110), ("delays", 0b10_0000_0011), ("span", 4)]), false, thorough));
+    v.push(job(Cfg::new("timer.std", &[("k", k), ("clock0", 0), ("deadlines", 0b1110), ("delays", 0b10_0000_0010), ("span", 3)]), false, thorough));
+    v.push(job(Cfg::new("timer.local", &[("k", 3), ("clock0", 5), ("deadlines", 0b0110), ("delays", 0b10_0000_0011), ("span", 3)]), false, thorough));
+    v
+}
+
+pub fn mpmc_jobs(thorough: bool, finish: bool) -> Vec<Job> {
+    let mut v = vec![];
+    let vals = if thorough { 4 } else { 3 };
+    for cap in 0..=2i64 {
+        let name: &'static str = ["mpmc.arrL0", "mpmc.arrL1", "mpmc.arrL2"][cap as usize];
+        v.push(job(Cfg::new(name, &[("cap", cap), ("ks", 2), ("kr", 2), ("values", vals), ("stream", 0)]), finish, thorough));
+        if thorough {
+            v.push(job(Cfg::new(name, &[("cap", cap), ("ks", 3), ("kr", 2), ("values", 4), ("stream", 0)]), finish, true));
+            v.push(job(Cfg::new(name, &[("cap", cap), ("ks", 2), ("kr", 1), ("values", 4), ("stream", 1)]), finish, true));
+        }
+    }
+    v.push(job(Cfg::new("mpmc.arrL1", &[("cap", 1), ("ks", 2), ("kr", 1), ("values", 3), ("stream", 1)]), finish, thorough));
+    v.push(job(Cfg::new("mpmc.arrL0", &[("cap", 0), ("ks", 1), ("kr", 1), ("values", 3), ("stream", 1)]), finish, thorough));
+    for cap in 0..=2i64 {
+        let name: &'static str = ["mpmc.arrS0", "mpmc.arrS1", "mpmc.arrS2"][cap as usize];
+        if thorough || cap == 1 {
+            v.push(job(Cfg::new(name, &[("cap", cap), ("ks", 2), ("kr", 2), ("values", 3), ("stream", 0)]), finish, thorough));
+        }
+    }
+    v.push(job(Cfg::new("mpmc.fixS", &[("cap", 2), ("ks", 2), ("kr", 1), ("values", 3), ("stream", 0)]), finish, thorough));
+    for cap in 0..=(if thorough { 2i64 } else { 1 }) {
+        v.push(job(Cfg::new("mpmc.shGrow", &[("cap", cap), ("ks", 1), ("kr", 1), ("values", 2), ("stream", 1), ("handles", 2)]), finish, thorough));
+    }
+    v.push(job(Cfg::new("mpmc.shFix", &[("cap", 1), ("ks", 2), ("kr", 1), ("values", 3), ("stream", 0), ("handles", 2)]), finish, thorough));
+    if thorough {
+        v.push(job(Cfg::new("mpmc.shGrow", &[("cap", 1), ("ks", 2), ("kr", 2), ("values", 3), ("stream", 0), ("handles", 3)]), finish, true));
+        v.push(job(Cfg::new("mpmc.arrL1", &[("cap", 1), ("ks", 2), ("kr", 2), ("values", 3), ("stream", 0), ("symmetry", 0)]), finish, true));
+    }
+    v
+}
+
+pub fn all_jobs(thorough: bool) -> Vec<Job> {
+    let mut v = vec![];
+    v.extend(mutex_jobs(thorough, false));
+    v.extend(sem_jobs(thorough, false));
+    v.extend(event_jobs(thorough));
+    v.extend(oneshot_jobs(thorough));
+    v.extend(state_jobs(thorough));
+    v.extend(timer_jobs(thorough));
+    v.extend(mpmc_jobs(thorough, false));
+    v
+}
+
 pub fn plan(prop: &str, tier: &str) -> Vec<Job> {
     let t = tier == "thorough";
     match prop {
+        "C01" | "C17" | "C18" => all_jobs(t),
+        "C11" => {
+            let mut v = mpmc_jobs(t, false);
+            v.extend(oneshot_jobs(t));
+            v.extend(state_jobs(t));
+            v
+        }
+        "C15" => timer_jobs(t),
+        "C08" | "C10" => mpmc_jobs(t, true),
+        "C09" => mpmc_jobs(t, false),
+        "C14" => event_jobs(t),
+        "C12" => oneshot_jobs(t),
+        "C13" => state_jobs(t),
+        "C02" => mutex_jobs(t, false),
+        "C03" | "C04" => mutex_jobs(t, true),
         "C05" | "C07" => sem_jobs(t, false),
         "C06" => sem_jobs(t, true),
         _ => vec![],
